@@ -76,6 +76,37 @@ static void after(long ret, int err) {
   for (unsigned i = 0; i < nobjs; i++) { prev[i].o = objs[i]; prev[i].gp = objs[i]->gp_index; prev[i].ud = objs[i]->userdata; }
   nprev = nobjs; qsort(prev, nprev, sizeof(*prev), prev_cmp);
   fprintf(fc, "OK\n");                     /* answer to END: the model must find WF + prediction + stability OK */
+  /* the side structures stay consistent with the tree after every call (public API only): CPU kinds are non-empty, pairwise disjoint
+   * (a registration may name PUs the topology does not have: no inclusion clause), with efficiencies 0..nr-1 in order or all -1 (the invariants proved for C15); every other step (so
+   * that stale caches still reach the next call half of the time) the distances structures name >= 2 objects of this very tree */
+  const char *sidebad = NULL;
+  { int nr = hwloc_cpukinds_get_nr(topo, 0); hwloc_bitmap_t seen = hwloc_bitmap_alloc(), cs = hwloc_bitmap_alloc(); int allm1 = 1, inorder = 1;
+    for (int k = 0; k < nr && !sidebad; k++) {
+      int eff = -2; if (hwloc_cpukinds_get_info(topo, (unsigned) k, cs, &eff, NULL, 0) < 0) { sidebad = "cpukind-get-info-fails"; break; }
+      if (hwloc_bitmap_iszero(cs)) sidebad = "cpukind-empty";
+      else if (hwloc_bitmap_intersects(cs, seen)) sidebad = "cpukinds-overlap";
+      hwloc_bitmap_or(seen, seen, cs);
+      if (eff != -1) allm1 = 0;
+      if (eff != k) inorder = 0;
+    }
+    if (!sidebad && nr > 0 && !allm1 && !inorder) sidebad = "cpukind-efficiencies-not-0..nr-1";
+    if (!sidebad && nr == 1 && allm1) sidebad = "single-cpukind-unranked";
+    hwloc_bitmap_free(seen); hwloc_bitmap_free(cs); }
+  { static unsigned long stepno; if (!sidebad && (stepno++ & 1)) {
+      unsigned nd = 0; hwloc_distances_get(topo, &nd, NULL, 0, 0);
+      struct hwloc_distances_s **ds = calloc(nd + 1, sizeof *ds); unsigned got = nd; hwloc_distances_get(topo, &got, ds, 0, 0);
+      for (unsigned k = 0; k < got && k < nd; k++) {
+        if (ds[k]->nbobjs < 2) sidebad = "distances-with-fewer-than-2-objects";
+        for (unsigned j = 0; j < ds[k]->nbobjs && !sidebad; j++) {
+          int found = 0; for (unsigned i = 0; i < nobjs; i++) if (objs[i] == ds[k]->objs[j]) { found = 1; break; }
+          if (!found) sidebad = "distances-object-not-in-the-tree";
+        }
+        hwloc_distances_release(topo, ds[k]);
+      }
+      free(ds);
+  } }
+  if (sidebad && !bad) { fprintf(fops, "UD bad-%s\n", sidebad); bad = -1; }
+  else
   if (bad) fprintf(fops, "UD bad%s gp=%llu\n", bad == 2 ? "-surviving-pointer" : "", badgp); else fprintf(fops, "UD ok\n");
   fprintf(fc, "UD ok\n");
   fflush(fops); fflush(fc);
